@@ -636,6 +636,16 @@ def check_allowed_props(ctx, rng):
             continue
         ctx.violation("disallowed-prop-accepted", "prop %r=%r outside the allow-list %r accepted" % (bad, val, allowed), {"allowed": allowed, "prop": bad})
         return
+    # ... nor does an undeclared prop get in by another door: as a positional mapping, or through the name's other spelling
+    for attempt, what in ((lambda: mk({bad: 1}), "a positional dict"), (lambda: mk({bad: 1}, "child", **{ok: 1}), "a positional dict next to a child and a declared prop"),
+                          (lambda: mk(__import__("collections").OrderedDict([(bad, 1)])), "a positional OrderedDict")):
+        try:
+            t_ = attempt()
+        except Exception:
+            continue
+        if norm(bad) in t_.attrs or bad in t_.attrs:
+            ctx.violation("disallowed-prop-accepted", "prop %r outside the allow-list %r got into the component through %s" % (bad, allowed, what), {"allowed": allowed, "prop": bad})
+            return
     try:
         jsx_mod.jsx_tag_create("lower")()
     except Exception:
